@@ -5,6 +5,8 @@ CONSTANTS
   N = 3
   Types = {1, 2}
   KS = {1, 2}
-  AddOrder = "lib"
+  AddOrder = "bytes_first"
 CHECK_DEADLOCK FALSE
-INVARIANT TornSound
+INVARIANT TornSoundAdd
+INVARIANT InvHeaderSafe
+INVARIANT InvIdleSound
